@@ -5,6 +5,7 @@ package main
 import (
 	"context"
 	"crypto/sha256"
+	"strings"
 	"errors"
 	"fmt"
 	"time"
@@ -330,6 +331,13 @@ var blockMuts = []mutInfo{
 	{"Block.Evidence", "bound"}, {"Block.Evidence+EvidenceHash+BlockID.Hash", "bound"},
 	{"Block.LastCommit.Signatures", "bound"}, {"Block.LastCommit.Signatures+LastCommitHash+BlockID.Hash", "bound"},
 	{"Block.LastCommit.Round", "free"}, {"Block.LastCommit.BlockID", "free"}, {"Block:nil", "bound"},
+	{"Evidence.DuplicateVote.VoteA.Signature", "bound"}, {"Evidence.DuplicateVote.VoteB.Timestamp", "bound"},
+	{"Evidence.DuplicateVote.TotalVotingPower", "bound"}, {"Evidence.DuplicateVote.ValidatorPower", "bound"}, {"Evidence.DuplicateVote.Timestamp", "bound"},
+	{"Evidence.LightClientAttack.ByzantineValidators", "bound"}, {"Evidence.LightClientAttack.ByzantineValidators:drop", "bound"},
+	{"Evidence.LightClientAttack.TotalVotingPower", "bound"}, {"Evidence.LightClientAttack.Timestamp", "bound"},
+	{"Evidence.LightClientAttack.CommonHeight", "bound"}, {"Evidence.LightClientAttack.ConflictingBlock.Commit", "bound"},
+	{"Evidence.LightClientAttack.ConflictingBlock.ValidatorSet", "bound"}, {"Evidence.LightClientAttack.ConflictingBlock.Header", "bound"},
+	{"Evidence:drop", "bound"}, {"Evidence:swap", "bound"},
 	{"Block:other-height", "request"}, {"BlockID.Hash:short", "bound"}, {"BlockID.PartSetHeader.Hash:short", "bound"},
 }
 
@@ -349,6 +357,10 @@ func mutBlock(c *chain, res *ctypes.ResultBlock, mut string, k int) {
 	}
 	b := res.Block
 	if b == nil {
+		return
+	}
+	if strings.HasPrefix(mut, "Evidence") {
+		mutEvidence(b, mut, k)
 		return
 	}
 	rehash := func() { res.BlockID.Hash = b.Header.Hash() }
@@ -468,6 +480,76 @@ func mutBlock(c *chain, res *ctypes.ResultBlock, mut string, k int) {
 		}
 	default:
 		panic("unknown block mutation " + mut)
+	}
+}
+
+// mutEvidence falsifies the CONTENT of a piece of evidence the block carries (the header, and so the
+// EvidenceHash, is left as it is: the hash must catch it)
+func mutEvidence(b *types.Block, mut string, k int) {
+	evs := b.Evidence.Evidence
+	if len(evs) == 0 {
+		return
+	}
+	switch mut {
+	case "Evidence:drop":
+		i := k % len(evs)
+		b.Evidence.Evidence = append(append(types.EvidenceList{}, evs[:i]...), evs[i+1:]...)
+		return
+	case "Evidence:swap":
+		if len(evs) >= 2 {
+			evs[0], evs[1] = evs[1], evs[0]
+		}
+		return
+	}
+	for _, ev := range evs {
+		switch e := ev.(type) {
+		case *types.DuplicateVoteEvidence:
+			switch mut {
+			case "Evidence.DuplicateVote.VoteA.Signature":
+				e.VoteA.Signature = flip(e.VoteA.Signature, k)
+			case "Evidence.DuplicateVote.VoteB.Timestamp":
+				e.VoteB.Timestamp = e.VoteB.Timestamp.Add(time.Duration(1+k%5) * time.Second)
+			case "Evidence.DuplicateVote.TotalVotingPower":
+				e.TotalVotingPower += int64(1 + k%3)
+			case "Evidence.DuplicateVote.ValidatorPower":
+				e.ValidatorPower += int64(1 + k%3)
+			case "Evidence.DuplicateVote.Timestamp":
+				e.Timestamp = e.Timestamp.Add(time.Duration(1+k%5) * time.Second)
+			default:
+				continue
+			}
+			return
+		case *types.LightClientAttackEvidence:
+			switch mut {
+			case "Evidence.LightClientAttack.ByzantineValidators":
+				if len(e.ByzantineValidators) > 0 {
+					e.ByzantineValidators[0].VotingPower += int64(1 + k%3)
+				}
+			case "Evidence.LightClientAttack.ByzantineValidators:drop":
+				e.ByzantineValidators = nil
+			case "Evidence.LightClientAttack.TotalVotingPower":
+				e.TotalVotingPower += int64(1 + k%3)
+			case "Evidence.LightClientAttack.Timestamp":
+				e.Timestamp = e.Timestamp.Add(time.Duration(1+k%5) * time.Second)
+			case "Evidence.LightClientAttack.CommonHeight":
+				if e.CommonHeight > 1 {
+					e.CommonHeight--
+				} else {
+					continue
+				}
+			case "Evidence.LightClientAttack.ConflictingBlock.Commit":
+				sigs := e.ConflictingBlock.Commit.Signatures
+				sigs[k%len(sigs)].Signature = flip(sigs[k%len(sigs)].Signature, k)
+			case "Evidence.LightClientAttack.ConflictingBlock.ValidatorSet":
+				vs := e.ConflictingBlock.ValidatorSet.Validators
+				vs[k%len(vs)].ProposerPriority += int64(1 + k%3)
+			case "Evidence.LightClientAttack.ConflictingBlock.Header":
+				e.ConflictingBlock.Header.AppHash = flip(e.ConflictingBlock.Header.AppHash, k)
+			default:
+				continue
+			}
+			return
+		}
 	}
 }
 
